@@ -14,6 +14,18 @@ from linear_operator.utils.getitem import _compute_getitem_size
 from linear_operator.utils.memoize import cached
 
 
+class _ZeroLinearOperatorRepresentationTree(object):
+    """Representation tree of a ZeroLinearOperator: no tensors are needed to rebuild it."""
+
+    def __init__(self, linear_op):
+        self._sizes = tuple(linear_op.sizes)
+        self._dtype = linear_op._dtype
+        self._device = linear_op._device
+
+    def __call__(self, *flattened_representation):
+        return ZeroLinearOperator(*self._sizes, dtype=self._dtype, device=self._device)
+
+
 class ZeroLinearOperator(LinearOperator):
     """
     Special LinearOperator representing zero.
@@ -75,6 +87,14 @@ class ZeroLinearOperator(LinearOperator):
             *batch_shape, m, n = rhs.shape
             output_shape = (*batch_shape, new_m, n)
         return torch.zeros(*output_shape, dtype=rhs.dtype, device=rhs.device)
+
+    def representation(self) -> Tuple[torch.Tensor, ...]:
+        # The sizes are not tensors: a ZeroLinearOperator is represented by no tensors at all
+        # (otherwise it could not be nested inside other LinearOperators).
+        return tuple()
+
+    def representation_tree(self) -> _ZeroLinearOperatorRepresentationTree:
+        return _ZeroLinearOperatorRepresentationTree(self)
 
     def _prod_batch(self, dim: int) -> LinearOperator:
         sizes = list(self.sizes)
